@@ -26,7 +26,9 @@ let err_name = function
   | EMaxSize -> "maxsize" | EAssert -> "assert" | EFuel -> "FUEL"
 let show_headers hs =
   if hs = [] then "-" else String.concat ";" (List.map (fun (k, v) -> hex_of_bytes k ^ "=" ^ hex_of_bytes v) hs)
-let show_obs o = "P " ^ show_headers o.o_headers ^ " " ^ hex_of_bytes o.o_data ^ " " ^ string_of_bool_01 o.o_eof
+let show_obs = function
+  | MkObs (hs, data, eof) -> "P " ^ show_headers hs ^ " " ^ hex_of_bytes data ^ " " ^ string_of_bool_01 eof
+  | MkNested hs -> "N " ^ show_headers hs
 let wpart_of tok = match String.split_on_char ':' tok with
   | [h; b; i] -> { wp_headers = bytes_of_hex h; wp_body = bytes_of_hex b; wp_identity = (i = "1") }
   | _ -> failwith "bad part"
